@@ -276,6 +276,46 @@ def r17_5(chk, facts):
                 cls, fn['n'], A.callee_name(c), first[:30]), None, fn['q'])
     chk.require(n >= 10, 'R17.5: only %d container opens found in the streaming encode route' % n)
 
+def r17_6(chk, facts):
+    """Generated streaming decode: after the cursor moves on, the member name in `key` is re-read before it is compared again."""
+    from .. import cfg as C, guards as G
+    chk.rule('R17.6', 'generated decode loop: on every path from a cursor advance (read_next_or_end / cursor.next) to the next comparison of `key` '
+                      'with a member name, `key` is re-read with get_key(); otherwise an unknown member makes the loop consume the rest of '
+                      'the object and report a missing member, while the basic_json route accepts the same text', floor=2)
+    n = 0
+    for fn in facts.functions:
+        if fn.get('body') is None or fn.get('dep') or not fn['file'].startswith('drivers/reflect.cpp') or fn['n'] != 'decode': continue
+        calls = [A.callee_name(c) for c in A.calls_in(fn['body'], no_lambda=True)]
+        if 'get_key' not in calls: continue
+        chk.analysed(fn)
+        g = C.CFG(fn['body'])
+        adv = []; refresh = []; cmp_nodes = []
+        for nd in g.rpo:
+            if nd.kind not in ('stmt', 'cond') or not isinstance(nd.ast, dict): continue
+            for c in A.calls_in(nd.ast):
+                nm = A.callee_name(c)
+                if (nm or '').endswith('read_next_or_end') or (nm in ('next', 'read_to') and A.ref_name(c.get('obj')) == 'cursor'): adv.append(nd)
+            if nd.kind == 'stmt':
+                am = U.assigned_member(nd.ast)
+                if am and am[0] == 'key' and any(A.callee_name(c) == 'get_key' for c in A.calls_in(am[1])): refresh.append(nd)
+                if nd.ast.get('k') == 'DeclStmt' and any(d.get('n') == 'key' for d in nd.ast.get('decls') or []): refresh.append(nd)
+            if nd.kind == 'cond':
+                c2 = G.comparison(nd.ast)
+                if c2 and c2[0] == '==' and any(y.get('k') == 'DeclRefExpr' and y.get('n') == 'key' for side in (c2[1], c2[2]) for y in A.walk(side)): cmp_nodes.append(nd)
+        who = (fn.get('cls') or '')
+        wit = who[who.find('jcsa_reflect::'):].split('>')[0] if 'jcsa_reflect::' in who else who[-30:]
+        n += 1
+        site = 'drivers/reflect.cpp decode_traits<%s>::decode key freshness' % wit
+        stale = [a for a in adv if any(g.can_reach(s2, cmp_nodes, avoid=refresh) for s2 in a.succ)]
+        # a decode of the member value (decode_traits<...>::decode) between is fine: it is followed by read_next_or_end again
+        if not stale: chk.ok('R17.6', site, {'advances': len(adv), 'refreshes': len(refresh), 'comparisons': len(cmp_nodes)})
+        else:
+            lines = sorted(set(a.line for a in stale))
+            macro = next((a.ast.get('m') for a in stale if a.ast.get('m')), None)
+            chk.fail('R17.6', site, fn['file'], lines[0], 'decode_traits<%s>::decode: after the cursor advance in the no-match branch (`count++ >= num_params`) the loop can compare `key` again without get_key(): an unknown member before a known one ends in missing_required_member, json(...).as<T>() accepts it' % wit,
+                     {'stale_advances': len(stale)}, fn['q'])
+    chk.require(n >= 2, 'R17.6: only %d generated streaming decoders found' % n)
+
 def run(chk, tier, only_rule=None):
     chk.explanation = EXPLANATION
     chk.not_decided = NOT_DECIDED
@@ -284,5 +324,6 @@ def run(chk, tier, only_rule=None):
     r17_1(chk, facts)
     r17_2(chk, facts)
     r17_5(chk, facts)
+    r17_6(chk, facts)
     r17_3(chk, facts)
     r17_4(chk, facts)
